@@ -61,6 +61,27 @@ def shards(tier, seed):
         for ch in spaces.chunks(cfgs, n):
             sh.append(dict(stratum='custom bases (all for d<=3 in thorough; bounded deviation above) x signatures',
                            cfgs=ch, triples='all' if d <= 3 else 'gens', mvprod=d <= 2, spell=d <= 3))
+    # algebras derived from another algebra with dataclasses.replace (new signature, or new basis): the copy must obey
+    # its own configuration. The copy keeps the basis (hence the labels) of its source unless the basis is replaced.
+    derived = []
+    for d in (1, 2, 3):
+        sigs = spaces.sig(d)
+        srcs = sigs if d <= 2 else sigs[::4]
+        for s1 in srcs:
+            for st in ((None, 0) if d <= 2 else (None,)):
+                src = spaces.cfg_sig(s1, start_index=st)
+                start = ref_from_config(src).start
+                for s2 in (sigs if d <= 2 or tier == 'thorough' else sigs[1::3]):
+                    if s2 != s1:
+                        derived.append({'signature': s2, 'basis': spaces.default_basis(d, start), 'derived_from': src,
+                                        'replace': {'signature': s2}})
+                if d >= 2:
+                    for b in (spaces.all_bases(d, start=start) if d == 2 else spaces.bases_by_deviation(d, 1, start=start)):
+                        if b != spaces.default_basis(d, start):
+                            derived.append({'signature': s1, 'basis': b, 'derived_from': src, 'replace': {'basis': b}})
+    for ch in spaces.chunks(derived, 8):
+        sh.append(dict(stratum='algebras derived with dataclasses.replace(signature=..) / (basis=..) from every source signature (d<=3)',
+                       cfgs=ch, triples='gens', mvprod=False, spell=False))
     sh.append(dict(stratum='named algebras 2DPGA, 3DPGA, STAP', cfgs=[{**c, 'named': n} for n, c in spaces.NAMED.items()],
                    triples='gens', mvprod=False, spell=False))
     # lazy tables d >= 7
@@ -72,6 +93,22 @@ def shards(tier, seed):
                 s = [1] * 7
                 s[i] = v
                 lazy.append(spaces.cfg_sig(s))
+    # lazily filled tables of custom bases: generator order differs from label order, blades respelled
+    base7 = spaces.default_basis(7, 1)
+
+    def swapgen(b, i, j):
+        nb = b[:]
+        nb[1 + i], nb[1 + j] = nb[1 + j], nb[1 + i]
+        return nb
+    rot = ['e'] + base7[7:8] + base7[1:7] + base7[8:]
+    resp = [{'e12': 'e21', 'e1234567': 'e2134567', 'e357': 'e753'}.get(n, n) for n in base7]
+    custom7 = [swapgen(base7, 0, 6), rot, resp, swapgen(base7, 2, 3)]
+    if tier == 'thorough':
+        custom7 += [swapgen(base7, i, j) for i in range(7) for j in range(i + 1, 7) if (i, j) not in ((0, 6), (2, 3))]
+    for b in custom7:
+        for s in ([1, 1, 1, -1, 0, 1, -1], [0, -1, 1, 1, -1, 1, 1]):
+            sh.append(dict(stratum='lazily filled tables of custom bases (d=7): generator order / spelling deviations, two fill orders',
+                           cfgs=[spaces.cfg_sig(s, basis=b)], lazy=True, full=False))
     for cfg in lazy:
         sh.append(dict(stratum='lazily filled tables (d=7,8), two fill orders', cfgs=[cfg], lazy=True,
                        full=(tier == 'thorough' and len(cfg.get('signature', [0] * (cfg.get('p', 0) + cfg.get('q', 0) + cfg.get('r', 0)))) == 7)))
@@ -94,6 +131,10 @@ def check_alg(cfg, shard, res, tables):
             if list(alg.basis) != list(cfg['basis']):
                 res.violate(violation('fromname-basis', f"fromname({cfg['named']}) basis differs from the documented list",
                                       {'shard': {**shard, 'cfgs': [cfg]}}, cfg['basis'], alg.basis))
+        elif cfg.get('derived_from'):
+            # multi-step construction: an existing algebra is copied with dataclasses.replace and a new signature / basis
+            import dataclasses
+            alg = dataclasses.replace(make_algebra(cfg['derived_from']), **cfg['replace'])
         else:
             alg = make_algebra(cfg)
     except Exception as e:
@@ -105,6 +146,10 @@ def check_alg(cfg, shard, res, tables):
     name = cfg_name(cfg)
     case = {'shard': {**shard, 'cfgs': [cfg]}}
     repro = f'from kingdon import Algebra\nalg = {cfg_repro(cfg)}\n'
+    if cfg.get('derived_from'):
+        name = f"replace({cfg_name(cfg['derived_from'])}, {','.join(cfg['replace'])}) -> {name}"
+        repro = (f"from dataclasses import replace\nfrom kingdon import Algebra\n"
+                 f"alg = replace({cfg_repro(cfg['derived_from'])}, **{cfg['replace']!r})\n")
     c2b = alg.canon2bin
     names = list(c2b)
     d = alg.d
